@@ -52,12 +52,8 @@ def child(scenario, root, tag, fp=None, timeout=120, rerun=False):
     e["VP_C12_COUNT"] = str(root / "c12_count")
     cmd = [PY, "-m", "vp.fpchild", scenario, str(cache), str(root / "ev.jsonl"), str(outp)] + (["rerun"] if rerun else [])
     t0 = time.time()
-    try:
-        p = subprocess.run(cmd, cwd=str(env.VERIF), env=e, capture_output=True, timeout=timeout)
-        rc = p.returncode
-        stderr = p.stderr.decode(errors="replace")[-400:]
-    except subprocess.TimeoutExpired:
-        rc, stderr = "timeout", ""
+    rc, _, err = env.run_group(cmd, timeout, cwd=str(env.VERIF), env=e)
+    stderr = err.decode(errors="replace")[-400:]
     res = {}
     if outp.exists():
         try:
